@@ -100,6 +100,12 @@ theorem strip_decorated_tokens (toks ps : List Piece) (tail : Option Bytes)
     strip jsonPlus (renderDoc ps tail) = (keptDoc toks, .ok) := by
   rw [strip_decorated ps tail hps htail, kept_is_tokens, hdec]
 
+/-- The token grammar covers every RFC 8259 string literal: any sequence of unescaped bytes (not `"`,
+not `\`) and backslash escapes is a well-formed `str` piece — `"\""`, `"\\"`, `"a//b"`, `"/*"`, `"it's"`,
+`"\u0022"` included. -/
+theorem json_strings_are_tokens (items : List StrItem) : (Piece.str (strItems items)).WF :=
+  strBody_items items
+
 /-! ### no_comment_identity -/
 
 /-- A document without comments passes through byte for byte. -/
